@@ -97,9 +97,11 @@ def normalise(tree):
 
 
 class Ref:
-    def __init__(self, tree):
+    def __init__(self, tree, pool=None):
         self.tree = tree
         self.pool = {c["id"]: c for c in classes(tree)}
+        if pool:
+            self.pool.update({c["id"]: c for c in pool})
         self.counts = {}
         self.root = self.create(tree, (tree["a"], None))
         self.saved = None
@@ -174,9 +176,9 @@ class Ref:
         return next((c for c in node.cls["s"] if c["a"] == a), None)
 
 
-def predict_ops(rng, tree, nops, allow_static_destroy=False, with_load=True):
+def predict_ops(rng, tree, nops, allow_static_destroy=False, with_load=True, pool=None):
     """Generate a mostly-valid op sequence by running the reference with its own allocator."""
-    ref = Ref(tree)
+    ref = Ref(tree, pool)
     ops = []
     dead_names = []
     all_aliases = sorted({c["a"] for c in classes(tree)})
@@ -355,19 +357,24 @@ def gen_tree(rng, max_depth=4, degenerate=False, inherit=0.45):
     for i, c in enumerate(classes(tree)):
         c["id"] = i
         c["base"] = None
-    # inheritance between (non-contextual) layer classes: a class may derive from another generated
-    # class, in any position of the tree (so that either may be instantiated first); it inherits
+    # inheritance between layer classes (static from static, contextual from contextual): a class may
+    # derive from another generated class, in any position of the tree (so that either may be instantiated first); it inherits
     # the base's handlers, overrides some (other decorators, or none at all) and adds handlers for
     # new tags / new sources
     pool = {c["id"]: c for c in classes(tree)}
-    statics = [c for c in classes(tree) if not c["x"]]
-    order = statics[:]
+    parent_of = {s2["id"]: c for c in classes(tree) for s2 in c["s"]}
+    order = list(classes(tree))
     rng.shuffle(order)
     for k, c in enumerate(order):
         if k == 0 or rng.random() > inherit:
             continue
-        b = rng.choice(order[:k])
+        cands = [b for b in order[:k] if b["x"] == c["x"]]
+        if not cands:
+            continue
+        b = rng.choice(cands)
         c["base"] = b["id"]
+        if c["x"] and rng.random() < 0.5 and parent_of.get(c["id"]) is not parent_of.get(b["id"]):
+            c["a"] = b["a"]      # contextual class deriving from a contextual class and keeping its alias
         beff = effective(b, pool)
         own = {}
         def rdeco(src_pool):
@@ -399,6 +406,117 @@ def wf_tree(t):
             and all(wf_tree(s) for s in t["s"]))
 
 
+# ---------------------------------------------------------------------------
+# class pool + set-up program (add / remove calls) and their elaboration into a class tree
+# ---------------------------------------------------------------------------
+
+def tree_to_program(tree):
+    """every node a class with an (empty) LAYERS of its own, add() calls in tree order"""
+    pool, setup = [], []
+    def walk(t):
+        pool.append({"id": t["id"], "a": t["a"], "x": t["x"], "h": t["h"], "base": t.get("base"), "own_layers": True})
+        for sub in t["s"]:
+            setup.append(["add", t["id"], sub["id"]])
+        for sub in t["s"]:
+            walk(sub)
+    walk(tree)
+    return pool, setup, tree["id"]
+
+
+def run_program(pool, setup):
+    """reference semantics of add/remove: own = {class id: [(alias, sub id), ...]} for the classes
+    that have a LAYERS dictionary of their own; others see the nearest base class's one"""
+    pd = {c["id"]: c for c in pool}
+    own = {c["id"]: [] for c in pool if c.get("own_layers")}
+    def layers(cid):
+        seen = 0
+        while cid is not None and seen <= len(pool):
+            if cid in own:
+                return own[cid]
+            cid = pd[cid].get("base"); seen += 1
+        return None
+    for k, c, sub in setup:
+        a = pd[sub]["a"]
+        cur = layers(c)
+        if k == "add":
+            d = list(cur) if cur is not None else []
+            if any(x == a for x, _ in d):
+                d = [(x, sub if x == a else y) for x, y in d]
+            else:
+                d.append((a, sub))
+            own[c] = d
+        else:
+            if cur is not None and any(x == a for x, _ in cur):
+                own[c] = [(x, y) for x, y in cur if x != a]
+    return own, layers
+
+
+def elaborate(pool, setup, root, max_depth=4, max_nodes=45):
+    """the class tree of a stack of root class `root`; None when cyclic / too deep / too large"""
+    pd = {c["id"]: c for c in pool}
+    _own, layers = run_program(pool, setup)
+    count = [0]
+    def build(cid, depth, path):
+        if cid in path or depth > max_depth:
+            raise ValueError("cyclic or too deep")
+        count[0] += 1
+        if count[0] > max_nodes:
+            raise ValueError("too large")
+        c = pd[cid]
+        return {"id": cid, "a": c["a"], "x": c["x"], "h": c["h"], "base": c.get("base"),
+                "s": [build(sub, depth + 1, path | {cid}) for _a, sub in (layers(cid) or [])]}
+    try:
+        return build(root, 1, frozenset())
+    except ValueError:
+        return None
+
+
+def gen_program(rng, max_depth=4, degenerate=False):
+    """class pool with inheritance (handlers AND sub-layers) + add/remove program, and the tree it yields"""
+    for _attempt in range(30):
+        tree = gen_tree(rng, max_depth=max_depth, degenerate=degenerate)
+        pool, setup, root = tree_to_program(tree)
+        pd = {c["id"]: c for c in pool}
+        for c in pool:
+            if c["base"] is None:
+                continue
+            r = rng.random()
+            if r < 0.4:
+                continue                      # declares its own LAYERS: no sub-layer inherited
+            c["own_layers"] = False           # inherits the base class's sub-layers ...
+            if r > 0.8:                       # ... and never calls add() itself: shares the base's dictionary
+                setup = [st for st in setup if st[1] != c["id"]]
+            elif rng.random() < 0.4:          # removes one of the inherited sub-layers
+                inh = [st for st in setup if st[0] == "add" and st[1] == c["base"]]
+                if inh:
+                    setup.append(["remove", c["id"], rng.choice(inh)[2]])
+        if rng.random() < 0.5:
+            rng.shuffle(setup)
+        for _ in range(rng.choice([0, 0, 1, 2])):     # remove (and maybe re-add) a sub-layer, as tests do
+            adds = [j for j, st in enumerate(setup) if st[0] == "add"]
+            if not adds:
+                break
+            j = rng.choice(adds)
+            k = rng.randrange(j + 1, len(setup) + 1)
+            setup.insert(k, ["remove", setup[j][1], setup[j][2]])
+            if rng.random() < 0.6:
+                setup.insert(rng.randrange(k + 1, len(setup) + 1), ["add", setup[j][1], setup[j][2]])
+        t = elaborate(pool, setup, root, max_depth=4)
+        if t is not None:
+            return {"pool": pool, "setup": setup, "root": root, "tree": t}
+    tree = gen_tree(rng, max_depth=max_depth, degenerate=degenerate)
+    pool, setup, root = tree_to_program(tree)
+    return {"pool": pool, "setup": setup, "root": root, "tree": elaborate(pool, setup, root, max_depth=9, max_nodes=10 ** 6)}
+
+
+def as_program(case):
+    """cases / corpus files that only carry a tree get the equivalent program"""
+    if "pool" not in case:
+        pool, setup, root = tree_to_program(normalise(case["tree"]))
+        case = dict(case, pool=pool, setup=setup, root=root)
+    return case
+
+
 def tree_depth(t):
     return 1 + max([tree_depth(s) for s in t["s"]] or [0])
 
@@ -407,10 +525,12 @@ def tree_depth(t):
 # wire formats
 # ---------------------------------------------------------------------------
 
-def tree_to_impl(t):
-    return {"id": t["id"], "base": t.get("base"), "a": astr(t["a"]), "x": t["x"],
-            "h": [[hid, [[astr(s), tstr(tg), c, f] for s, tg, c, f in decos]] for hid, decos in t["h"]],
-            "s": [tree_to_impl(s) for s in t["s"]]}
+def case_to_impl(case):
+    case = as_program(case)
+    return {"pool": [{"id": c["id"], "base": c.get("base"), "a": astr(c["a"]), "x": c["x"], "own_layers": bool(c.get("own_layers")),
+                      "h": [[hid, [[astr(s), tstr(tg), cx, f] for s, tg, cx, f in decos]] for hid, decos in c["h"]]}
+                     for c in case["pool"]],
+            "setup": case["setup"], "root": case["root"], "ops": [op_to_impl(o) for o in case["ops"]]}
 
 def op_to_impl(op):
     k = op[0]
@@ -434,12 +554,14 @@ def chs(h):
     return clist(["Hd %d %s" % (hid, clist(["Dc %d %d %s" % (s, tg, cbool(c)) for s, tg, c, _f in decos]))
                   for hid, decos in h])
 
-def ctree(t):
-    return "(CT %d %d %s %s)" % (t["id"], t["a"], cbool(t["x"]), clist([ctree(s) for s in t["s"]]))
-
-def cpool(t):
-    return clist(["(%d, (%s, %s))" % (c["id"], chs(c["h"]), "None" if c.get("base") is None else "Some %d" % c["base"])
-                  for c in classes(t)])
+def cprogram(case):
+    """Coq literals: class pool, classes with an own (empty) LAYERS, set-up program, root class"""
+    case = as_program(case)
+    pool = clist(["(%d, CDf %d %s %s %s)" % (c["id"], c["a"], cbool(c["x"]), chs(c["h"]),
+                                             "None" if c.get("base") is None else "(Some %d)" % c["base"]) for c in case["pool"]])
+    ls0 = clist(["(%d, [])" % c["id"] for c in case["pool"] if c.get("own_layers")])
+    prog = clist([("SAdd %d %d" if k == "add" else "SRemove %d %d") % (c, sub) for k, c, sub in case["setup"]])
+    return "%s, %s, %s, %d" % (pool, ls0, prog, case["root"])
 
 def cop(op):
     k = op[0]
@@ -523,7 +645,7 @@ def oracle(case, events, stats):
     """Returns a list of (what, op_index, expected, observed).  Follows the implementation's
     instance names (any fresh name is acceptable) and object ids."""
     tree, ops = case["tree"], case["ops"]
-    ref = Ref(tree)
+    ref = Ref(tree, case.get("pool"))
     out = []
     def adopt(livelist, i, what):
         mine = [n for n, _p in ref.nodes()]
@@ -535,6 +657,8 @@ def oracle(case, events, stats):
         for n, (u, _nm) in zip(mine, livelist):
             n.uid = u
         return True
+    if events and events[0]["k"] == "init_exc":
+        return [("building the stack raised " + events[0]["cls"], -1, [nstr(n.name) for n, _p in ref.nodes()], events[0])]
     if not events or events[0]["k"] != "init":
         return [("driver produced no initial snapshot", -1, None, events[:1])]
     if not adopt(events[0]["live"], -1, "construction"):
@@ -748,7 +872,7 @@ def oracle(case, events, stats):
 # ---------------------------------------------------------------------------
 
 def run_impl_cases(cases):
-    req = {"cases": [{"tree": tree_to_impl(c["tree"]), "ops": [op_to_impl(o) for o in c["ops"]]} for c in cases]}
+    req = {"cases": [case_to_impl(c) for c in cases]}
     return C.run_impl("C12.py", req)["cases"]
 
 
@@ -762,12 +886,12 @@ def shrink(case, what, budget=60):
     r = fails(cur, run_impl_cases([cur])[0])
     if r is None:
         return case
-    cur = {"tree": cur["tree"], "ops": cur["ops"][:r[1] + 1]}
+    cur = dict(cur, ops=cur["ops"][:r[1] + 1])
     t_end = time.time() + 25
     for _ in range(budget):
         if time.time() > t_end:
             break
-        cands = [{"tree": cur["tree"], "ops": cur["ops"][:j] + cur["ops"][j + 1:]} for j in range(len(cur["ops"]) - 1)]
+        cands = [dict(cur, ops=cur["ops"][:j] + cur["ops"][j + 1:]) for j in range(len(cur["ops"]) - 1)]
         if not cands:
             break
         evs = run_impl_cases(cands)
@@ -775,7 +899,7 @@ def shrink(case, what, budget=60):
         for cand, ev in zip(cands, evs):
             r = fails(cand, ev)
             if r is not None:
-                keep = {"tree": cand["tree"], "ops": cand["ops"][:r[1] + 1]}
+                keep = dict(cand, ops=cand["ops"][:r[1] + 1])
                 break
         if keep is None:
             break
@@ -789,7 +913,8 @@ def corpus_cases():
     for fn in sorted(os.listdir(d)) if os.path.isdir(d) else []:
         if fn.endswith(".json"):
             w = json.load(open(os.path.join(d, fn)))
-            out.append({"tree": normalise(w["tree"]), "ops": w["ops"], "corpus": fn})
+            w["tree"] = normalise(w["tree"])
+            out.append(as_program({k: w[k] for k in ("tree", "ops", "pool", "setup", "root") if k in w} | {"corpus": fn}))
     return out
 
 
@@ -798,19 +923,19 @@ def gen_cases(ctx):
     cases = corpus_cases()
     n = 10000 if ctx.thorough else 800
     for j in range(n):
-        tree = gen_tree(rng, max_depth=rng.choice([2, 3, 4, 4]))
+        g = gen_program(rng, max_depth=rng.choice([2, 3, 4, 4]))
         nops = rng.choice([8, 15, 25, 40]) if not ctx.thorough else rng.choice([10, 25, 40, 70])
-        cases.append({"tree": tree, "ops": predict_ops(rng, tree, nops)})
+        cases.append(dict(g, ops=predict_ops(rng, g["tree"], nops, pool=g["pool"])))
     # separate stream: static layers destroyed too (no load), operations on bad paths
     for j in range(n // 8):
-        tree = gen_tree(rng, max_depth=rng.choice([3, 4]))
-        cases.append({"tree": tree, "ops": predict_ops(rng, tree, 20, allow_static_destroy=True, with_load=False),
-                      "stream": "static-destroy"})
+        g = gen_program(rng, max_depth=rng.choice([3, 4]))
+        cases.append(dict(g, ops=predict_ops(rng, g["tree"], 20, allow_static_destroy=True, with_load=False, pool=g["pool"]),
+                          stream="static-destroy"))
     # separate stream: degenerate trees (a static sub-layer carries its parent's alias): outside the
     # hypotheses of the save/load theorem; model and implementation must still agree
     for j in range(n // 10):
-        tree = gen_tree(rng, max_depth=rng.choice([2, 3, 4]), degenerate=True)
-        cases.append({"tree": tree, "ops": predict_ops(rng, tree, 20), "stream": "degenerate"})
+        g = gen_program(rng, max_depth=rng.choice([2, 3, 4]), degenerate=True)
+        cases.append(dict(g, ops=predict_ops(rng, g["tree"], 20, pool=g["pool"]), stream="degenerate"))
     return cases
 
 
@@ -824,8 +949,9 @@ def run(ctx):
         "the lookup cache is not observable on the repaired code (that is the theorem); its model is tied by reading and by the seeded reverts, where it becomes observable",
     ]
     ctx.assumptions = [
-        "layer classes form a finite tree (no class contains itself); LAYERS is a dict, so sibling aliases are distinct",
-        "distinct contextual classes of one stack have distinct aliases (INSTCOUNT is per class object, the model's counter per alias)",
+        "LAYERS is a dict, so sibling aliases are distinct",
+        "layer classes: single inheritance between generated classes (static from static, contextual from contextual); the stack structure results from a sequence of cls.add(sub)/cls.remove(sub) calls executed after the classes exist; the resulting containment is a finite tree (no class contains itself)",
+        "UNRELATED contextual classes of one stack have distinct aliases (INSTCOUNT lives in the base-most class of a hierarchy carrying the alias; the model's counter is per alias)",
         "load(): the state was produced by save() on a stack of the same classes (possibly before an interpreter restart) and is loaded into a freshly built stack; for the identity theorem: no static layer was destroyed, no static sub-layer has its parent's alias (wf_cls, static_ok; evaluated in Coq on every case)",
         "interpreter restart = class objects defined again (no INSTCOUNT), live stack gone, saved state kept",
         "handlers do not send messages themselves while being called (single dispatch per send)",
@@ -856,13 +982,14 @@ def run(ctx):
         if res and len(seen) < MAX_REPORTED and res[0][0] not in seen:
             what, i, exp, got = res[0]
             seen.add(what)
-            small = shrink(case, what) if i >= 0 else case
+            small = shrink(case, what) if i >= 0 else dict(case, ops=[])
             r2 = oracle(small, run_impl_cases([small])[0], {})
             if r2 and r2[0][0] == what:
                 what, i, exp, got = r2[0]
             else:
                 small = case
-            nviol += ctx.violation(what, {"tree": small["tree"], "ops": small["ops"], "failing_op": i},
+            nviol += ctx.violation(what, {"tree": small["tree"], "ops": small["ops"], "failing_op": i, "pool": small["pool"],
+                                          "setup": small["setup"], "root": small["root"]},
                                    expected=exp, observed=got)
     ctx.log("oracle: %d cases fail" % stats.get("cases_with_oracle_failure", 0))
 
@@ -877,7 +1004,7 @@ def run(ctx):
             ops = case["ops"][:len(obs)]
             hy = wf_tree(case["tree"]) and all(o[0] != "destroy" or o[2][1] is not None for o in ops)
             nhyp += 1 if hy else 0
-            terms.append("(%s, %s, %s, %s, %s, %s)" % (cpool(case["tree"]), ctree(case["tree"]), clist([cop(o) for o in ops]),
+            terms.append("(%s, %s, %s, %s, %s)" % (cprogram(case), clist([cop(o) for o in ops]),
                                                    clist(obs), clive(ev[0]["live"]), cbool(hy)))
             idx.append(ci)
         except Untranslatable as e:
@@ -891,7 +1018,7 @@ def run(ctx):
 
     # ---- coverage ---------------------------------------------------------------
     nontrivial = [c for c in cases if any(o[0] == "send" for o in c["ops"]) and any(o[0] == "inst" for o in c["ops"])]
-    ctx.cov["distinct_nontrivial"] = C.distinct_count([[c["tree"], c["ops"]] for c in nontrivial])
+    ctx.cov["distinct_nontrivial"] = C.distinct_count([[c["pool"], c["setup"], c["ops"]] for c in nontrivial])
     ctx.cov["rule"] = ("a case = random layer tree (depth <= 4; tagged/untagged/contextual handlers, several tags and sources per handler, "
                        "the same static alias at several positions) + random operation sequence (instantiate/destroy/send/set/save/load/restart, "
                        "plus operations on non-existent layers; separate streams: static layers destroyed, degenerate trees). Non-trivial = contains at least one instantiate and one send; distinct by content hash")
@@ -902,7 +1029,19 @@ def run(ctx):
                 "op_inst", "op_destroy", "op_send", "op_set", "op_save", "op_load", "op_restart", "inst_after_restart_and_load", "load_outside_hypotheses",
                 "send_to_derived_class", "send_inherited_handler", "send_overriding_handler", "send_handler_added_by_derived",
                 "send_pair_declared_only_by_hidden_base_method", "derived_created_after_base", "derived_created_before_base"]
-    ctx.cov["distribution"] = {"cases": len(cases), "tree_depth": {str(d): sum(1 for c in cases if tree_depth(c["tree"]) == d) for d in range(1, 6)},
+    progs = [as_program(c) for c in cases]
+    setup_stats = {"add_statements": sum(1 for c in progs for st in c["setup"] if st[0] == "add"),
+                   "remove_statements": sum(1 for c in progs for st in c["setup"] if st[0] == "remove"),
+                   "derived_classes": sum(1 for c in progs for d in c["pool"] if d.get("base") is not None),
+                   "derived_contextual_classes": sum(1 for c in progs for d in c["pool"] if d.get("base") is not None and d["x"]),
+                   "derived_contextual_same_alias": sum(1 for c in progs for d in c["pool"] if d.get("base") is not None and d["x"]
+                                                        and d["a"] == {e["id"]: e for e in c["pool"]}[d["base"]]["a"]),
+                   "derived_inheriting_sublayers": sum(1 for c in progs for d in c["pool"] if d.get("base") is not None and not d.get("own_layers")),
+                   "derived_with_own_LAYERS": sum(1 for c in progs for d in c["pool"] if d.get("base") is not None and d.get("own_layers")),
+                   "derived_never_calling_add": sum(1 for c in progs for d in c["pool"] if d.get("base") is not None and not d.get("own_layers")
+                                                    and not any(st[1] == d["id"] for st in c["setup"])),
+                   "shared_class_at_several_positions": sum(1 for c in cases if len({x["id"] for x in classes(c["tree"])}) < len(list(classes(c["tree"]))))}
+    ctx.cov["distribution"] = {"cases": len(cases), "setup": setup_stats, "tree_depth": {str(d): sum(1 for c in cases if tree_depth(c["tree"]) == d) for d in range(1, 6)},
                                "classes_per_tree_max": max(len(list(classes(c["tree"]))) for c in cases),
                                "ops_total": sum(len(c["ops"]) for c in cases),
                                "branches": {b: stats.get(b, 0) for b in branches},
@@ -925,10 +1064,10 @@ def run(ctx):
         first = None
         if bad:
             ci = idx[bad[0]]
-            first = {"tree": cases[ci]["tree"], "ops": cases[ci]["ops"], "impl_events": events[ci]}
+            first = dict({k: cases[ci][k] for k in ("tree", "ops", "pool", "setup", "root")}, impl_events=events[ci])
         elif untrans:
             ci = untrans[0][0]
-            first = {"tree": cases[ci]["tree"], "ops": cases[ci]["ops"], "impl_events": events[ci], "why": untrans[0][1]}
+            first = dict({k: cases[ci][k] for k in ("tree", "ops", "pool", "setup", "root")}, impl_events=events[ci], why=untrans[0][1])
         what = ("correspondence C12.Model vs whad.common.stack.Layer (%d of %d cases disagree, %d not expressible)"
                 % (len(bad), len(terms), len(untrans))) if (bad or untrans) else \
                "proof obligations of theories/C12: " + detail.splitlines()[0][:200]
@@ -939,7 +1078,8 @@ def replay(payload):
     case = payload.get("case") or payload.get("first_disagreeing_case")
     if not case:
         print("nothing to replay"); return 0
-    c = {"tree": normalise(case["tree"]), "ops": case["ops"]}
+    case["tree"] = normalise(case["tree"])
+    c = as_program({k: case[k] for k in ("tree", "ops", "pool", "setup", "root") if k in case})
     ev = run_impl_cases([c])[0]
     for op, e in zip([["<init>"]] + c["ops"], ev):
         print(json.dumps(op), "->", json.dumps(e)[:300])
